@@ -1401,3 +1401,273 @@ def worker_calltrace(task):
     except Exception:  # noqa
         import traceback
         return dict(name='calls-' + h['name'], error=traceback.format_exc())
+
+
+# ------------------------------------------------------------------------------------------
+# SENDER's record size: "handshake messages split across or packed into records in any way are processed
+# identically" also for what tlslite's own sender produces.  The sender's recordSize (application
+# setting) and the negotiated record_size_limit are swept over small values, including divisors of
+# message lengths; a heartbeat whose length is exactly the record size; both roles.  Everything must
+# equal the run with the default record size.
+def recsize_cases(quick, rng):
+    C = []
+    vers = [((3, 3), 'tls12'), ((3, 4), 'tls13'), ((3, 1), 'tls10')]
+    sizes_both = [1, 2, 3, 4, 13, 16, 31, 52] if quick else list(range(1, 41)) + [52, 64, 100, 128, 255, 256, 1000]
+    for ver, nm in vers:
+        for k in (sizes_both if nm != 'tls10' else ([2, 16] if quick else [1, 2, 3, 4, 8, 16, 20, 36])):
+            C.append(dict(name='%s-recsize-%d-both' % (nm, k), ver=ver, csize=k, ssize=k))
+        for k in ([4] if quick else [1, 2, 4, 7, 12, 16, 26, 32]):
+            C.append(dict(name='%s-recsize-%d-client' % (nm, k), ver=ver, csize=k))
+            C.append(dict(name='%s-recsize-%d-server' % (nm, k), ver=ver, ssize=k))
+    for ver, nm in vers[:2]:
+        for lim in ([64, 100] if quick else [64, 65, 66, 67, 68, 72, 80, 96, 100, 127, 128, 129, 255, 256, 257, 511]):
+            C.append(dict(name='%s-rsl-%d' % (nm, lim), ver=ver, rsl=lim))
+        for k in ([32] if quick else [19, 20, 24, 32, 33, 64, 100]):
+            C.append(dict(name='%s-heartbeat-eq-recsize-%d' % (nm, k), ver=ver, hbsize=k))
+        C.append(dict(name='%s-clientcert-recsize-2' % nm, ver=ver, csize=2, ssize=2, clientcert=True))
+    return C
+
+
+def run_recsize(case, apply_sizes, seed):
+    """One connection; apply_sizes False = reference run with the default record size."""
+    epr = EpRandom(seed).install()
+    clock = FakeClock().install()
+    try:
+        csock, ssock = sockpair2()
+        client, server = TLSConnection(csock), TLSConnection(ssock)
+        ver = case['ver']
+        hb = []
+        cset, sset = settings(minv=ver, maxv=ver), settings(minv=ver, maxv=ver)
+        cset.heartbeat_response_callback = lambda m: hb.append(bytes(m.payload))
+        if ver == (3, 4):
+            sset.ticketKeys = [b'\x33' * 32]
+        if apply_sizes and case.get('rsl'):
+            cset.record_size_limit = case['rsl']
+            sset.record_size_limit = case['rsl']
+        if apply_sizes and case.get('csize'):
+            client.recordSize = case['csize']
+        if apply_sizes and case.get('ssize'):
+            server.recordSize = case['ssize']
+        chain, key = creds('rsa')
+        ckw = dict(settings=cset, async_=True)
+        skw = dict(certChain=chain, privateKey=key, settings=sset)
+        if case.get('clientcert'):
+            ckw['certChain'], ckw['privateKey'] = creds('client-rsa')
+            skw['reqCert'] = True
+
+        def sig():
+            return (len(csock.inbuf), len(ssock.inbuf), len(csock.sent_log), len(ssock.sent_log))
+        r = drive2([tagged(client.handshakeClientCert(**ckw), 'client', epr),
+                    tagged(server.handshakeServerAsync(**skw), 'server', epr)], sig=sig)
+        out = {'hs': (classify(r[0]), classify(r[1]))}
+        p = (_params(client), _params(server))
+        out['params'] = p
+        if out['hs'] != (('ok',), ('ok',)):
+            return out
+        steps = []
+
+        def xfer(src, dst, tsrc, tdst, data):
+            got = bytearray()
+
+            def reader():
+                while len(got) < len(data):
+                    for rr in dst.readAsync(max=65536, min=1):
+                        if isinstance(rr, int):
+                            yield rr
+                        else:
+                            got.extend(rr)
+                            if len(rr) == 0:
+                                return
+                            break
+            w, rd = drive2([tagged(src.writeAsync(data), tsrc, epr), tagged(reader(), tdst, epr)], sig=sig)
+            steps.append((classify(w), classify(rd), bytes(got) == data))
+        xfer(client, server, 'client', 'server', payload(1, 33))
+        xfer(server, client, 'server', 'client', payload(2, 64))
+        if case.get('hbsize'):
+            k = case['hbsize']
+            if apply_sizes:
+                client.recordSize = k
+            # heartbeat message = type(1) + length(2) + payload + padding(16): exactly k bytes
+            w = drive2([tagged(client.write_heartbeat(bytearray(payload(3, k - 19)), 16), 'client', epr)], sig=sig)
+            steps.append(('hb-write', classify(w[0])))
+            xfer(client, server, 'client', 'server', payload(4, 5))
+            xfer(server, client, 'server', 'client', payload(5, 7))
+            steps.append(('hb-response', list(hb)))
+        out['steps'] = steps
+        rc = drive2([tagged(client.closeAsync(), 'client', epr), tagged(server.closeAsync(), 'server', epr)], sig=sig)
+        out['close'] = (classify(rc[0]), classify(rc[1]))
+        return out
+    finally:
+        clock.uninstall()
+        epr.uninstall()
+
+
+def worker_recsize(task):
+    cases, seed = task
+    out = []
+    for case in cases:
+        try:
+            base = run_recsize(case, False, seed)
+            o = run_recsize(case, True, seed)
+            d = [(k, 0, base.get(k), o.get(k)) for k in sorted(set(base) | set(o)) if base.get(k) != o.get(k)]
+            # the negotiated limit itself is a setting, not an outcome
+            s = dict(api='recsize', case={k: v for k, v in case.items() if k != 'name'}, seed=0)
+            out.append(dict(name='recsize-' + case['name'], seed=seed, deterministic=False, base=[base], base_diff=[],
+                            results=[(s, d, o if d else None, None)], recsize=case))
+        except Exception:  # noqa
+            import traceback
+            out.append(dict(name='recsize-' + case['name'], error=traceback.format_exc()))
+    return out
+
+
+# ------------------------------------------------------------------------------------------
+# FAILURE paths: a send of endpoint X fails (ECONNRESET) at send index i; what the peer had sent
+# before dying (a fatal alert, a data/garbage record, half a record, nothing) is delivered to X under
+# every recv schedule.  X's outcome (exception class, closed/resumable state) must be the same for all
+# schedules.  Up to the fault the run is unconstrained, so X's state (read-ahead included) is identical.
+ALERT_HF = bytes([21, 3, 3, 0, 2, 2, 40])            # fatal handshake_failure
+INJECT = {
+    'alert': ALERT_HF,
+    'alert-tls10': bytes([21, 3, 1, 0, 2, 2, 40]),
+    'half-alert': ALERT_HF[:4],
+    'warning-then-alert': bytes([21, 3, 3, 0, 2, 1, 90]) + ALERT_HF,
+    'appdata': bytes([23, 3, 3, 0, 3, 1, 2, 3]),
+    'handshake-junk': bytes([22, 3, 3, 0, 4, 0, 0, 0, 0]),
+    'nothing': b'',
+}
+
+
+class FaultSock(MemSock2):
+    """X's socket: the fail_at-th send() raises ECONNRESET; at that moment the peer is dead, X's pipe holds
+    exactly `inject`, and the recv schedule `after` starts to apply."""
+    fail_at = None
+    inject = b''
+    after = None
+    dead = False
+
+    def send(self, data):
+        if self.dead:
+            self.n_send += 1
+            raise socket.error(errno.ECONNRESET, 'Connection reset by peer')
+        if self.fail_at is not None and self.n_send == self.fail_at:
+            self.n_send += 1
+            self.dead = True
+            del self.inbuf[:]
+            self.inbuf += self.inject
+            self.peer_closed = True
+            if self.after:
+                self.recv_sizes = _sizes(self.after.get('recv'), '%s/r' % self.after.get('seed'))
+                self.block_recv = _blocks2(self.after.get('block_recv'), '%s/br' % self.after.get('seed'))
+            raise socket.error(errno.ECONNRESET, 'Connection reset by peer')
+        return MemSock2.send(self, data)
+
+
+def fault_flavours(quick):
+    F = [dict(name='tls12', ver=(3, 3)), dict(name='tls13', ver=(3, 4)), dict(name='tls13-clientcert', ver=(3, 4), clientcert=True)]
+    if not quick:
+        F += [dict(name='tls10', ver=(3, 1)), dict(name='tls12-clientcert', ver=(3, 3), clientcert=True),
+              dict(name='ssl3', ver=(3, 0)), dict(name='tls13-hrr', ver=(3, 4), hrr=True)]
+    return F
+
+
+def fault_schedules(quick):
+    S = [dict(block_recv=[0]), dict(recv='one', block_recv=1), dict(recv='small'), dict(block_recv=[0, 1, 2], recv='one')]
+    if not quick:
+        S += [dict(recv='one'), dict(block_recv=2), dict(recv='rand', block_recv='rand'), dict(block_recv=[1])]
+    for i, s in enumerate(S):
+        s['seed'] = 1000 + i
+        s['api'] = 'fault'
+    return S
+
+
+def run_fault(fl, role, index, inject, after, seed):
+    """Returns X's outcome dict, or None if X never reaches send number `index`."""
+    epr = EpRandom(seed).install()
+    clock = FakeClock().install()
+    try:
+        csock, ssock = FaultSock('c2s'), FaultSock('s2c')
+        csock.peer, ssock.peer = ssock, csock
+        xsock = csock if role == 'client' else ssock
+        xsock.fail_at, xsock.inject, xsock.after = index, INJECT[inject], after
+        client, server = TLSConnection(csock), TLSConnection(ssock)
+        ver = fl['ver']
+        cset, sset = settings(minv=ver, maxv=ver), settings(minv=ver, maxv=ver)
+        if ver == (3, 4):
+            sset.ticketKeys = [b'\x33' * 32]
+        if fl.get('hrr'):
+            cset.keyShares = []
+        chain, key = creds('rsa')
+        ckw = dict(settings=cset, async_=True)
+        skw = dict(certChain=chain, privateKey=key, settings=sset)
+        if fl.get('clientcert'):
+            ckw['certChain'], ckw['privateKey'] = creds('client-rsa')
+            skw['reqCert'] = True
+        X = client if role == 'client' else server
+
+        def alive(g):
+            for v in g:
+                if xsock.dead:
+                    return
+                yield v
+
+        def whole(conn, tag, hs, first_writer):
+            for v in hs:
+                yield v
+            # after the handshake: a write and a read each, so that post-handshake sends can fail too
+            if first_writer:
+                for v in conn.writeAsync(b'hello'):
+                    yield v
+            for v in conn.readAsync(5, 5):
+                if isinstance(v, int):
+                    yield v
+                else:
+                    break
+            if not first_writer:
+                for v in conn.writeAsync(b'world'):
+                    yield v
+            for v in conn.closeAsync():
+                yield v
+        gc = tagged(whole(client, 'client', client.handshakeClientCert(**ckw), True), 'client', epr)
+        gs = tagged(whole(server, 'server', server.handshakeServerAsync(**skw), False), 'server', epr)
+        gens = [gc, alive(gs)] if role == 'client' else [alive(gc), gs]
+
+        def sig():
+            return (len(csock.inbuf), len(ssock.inbuf), len(csock.sent_log), len(ssock.sent_log), xsock.n_recv if xsock.dead and xsock.inbuf else 0)
+        r = drive2(gens, sig=sig)
+        if not xsock.dead:
+            return None
+        xr = r[0] if role == 'client' else r[1]
+        s = X.session
+        return dict(X=classify(xr), closed=bool(X.closed), resumable=None if s is None else bool(s.resumable),
+                    unread=len(xsock.inbuf))
+    finally:
+        clock.uninstall()
+        epr.uninstall()
+
+
+def worker_fault(task):
+    fl, role, injects, scheds, seed, max_index = task
+    out = []
+    try:
+        for index in range(max_index):
+            reached = True
+            for inj in injects:
+                base = run_fault(fl, role, index, inj, None, seed)
+                if base is None:
+                    reached = False
+                    break
+                results = []
+                for s in scheds:
+                    o = run_fault(fl, role, index, inj, s, seed)
+                    d = [(k, 0, base.get(k), (o or {}).get(k)) for k in sorted(base) if base.get(k) != (o or {}).get(k)]
+                    s2 = dict(s, fault=dict(flavour=fl, role=role, index=index, inject=inj))
+                    results.append((s2, d, o if d else None, None))
+                out.append(dict(name='fault-%s-%s-send%d-%s' % (fl['name'], role, index, inj), seed=seed, deterministic=False,
+                                base=[dict(base, hs=(base['X'], base['X']))], base_diff=[], results=results,
+                                fault=dict(flavour=fl, role=role, index=index, inject=inj)))
+            if not reached:
+                break
+    except Exception:  # noqa
+        import traceback
+        out.append(dict(name='fault-%s-%s' % (fl['name'], role), error=traceback.format_exc()))
+    return out
